@@ -1,7 +1,9 @@
 //! C06 stream `body`: BodyReader over scripted Read objects.
 //! case: `<F<n>|C|E> <leftover> <seg,seg,...|-> <R|B><k,k,...>`   (hex fields; R = Read with these buffer
 //!        sizes, B = BufRead taking min(amt, available) per step)
-//! impl: `<out hex> <EOF|ERR|MORE>`
+//!        a segment written `!<hex>` is preceded by one read that fails with Interrupted; modes V (BodyReader::vec) and L (a read_until
+//!        loop) take no sizes
+//! impl: `<out hex> <EOF|ERR|MORE|ERREOF>`   (ERREOF: a cut-short fixed-length body reported an error and, asked again, a normal end)
 use crate::util::*;
 use crate::Ctx;
 use khttp::BodyReader;
@@ -11,6 +13,8 @@ pub struct Script {
     pub segs: Vec<Vec<u8>>,
     pub i: usize,
     pub off: usize,
+    /// segment indices before which one read fails with ErrorKind::Interrupted (nothing is consumed)
+    pub intr: Vec<usize>,
 }
 impl Read for Script {
     fn read(&mut self, buf: &mut [u8]) -> std::io::Result<usize> {
@@ -20,6 +24,12 @@ impl Read for Script {
         }
         if self.i >= self.segs.len() || buf.is_empty() {
             return Ok(0);
+        }
+        if self.off == 0 {
+            if let Some(p) = self.intr.iter().position(|&k| k == self.i) {
+                self.intr.remove(p);
+                return Err(std::io::Error::new(std::io::ErrorKind::Interrupted, "interrupted"));
+            }
         }
         let s = &self.segs[self.i][self.off..];
         let n = s.len().min(buf.len());
@@ -33,7 +43,10 @@ pub fn run(case: &str) -> String {
     crate::util::note_current(case);
     let f: Vec<&str> = case.split(' ').collect();
     let leftover = unhex(f[1]);
-    let segs: Vec<Vec<u8>> = if f[2] == "-" { vec![] } else { f[2].split(',').map(unhex).collect() };
+    // a segment written `!<hex>`: the read that would deliver it fails once with Interrupted first
+    let toks: Vec<&str> = if f[2] == "-" { vec![] } else { f[2].split(',').collect() };
+    let intr: Vec<usize> = toks.iter().enumerate().filter(|(_, t)| t.starts_with('!')).map(|(i, _)| i).collect();
+    let segs: Vec<Vec<u8>> = toks.iter().map(|t| unhex(t.trim_start_matches('!'))).collect();
     let mode = &f[3][..1];
     // sizes are run-length encoded: `k*count`
     let mut sizes: Vec<usize> = Vec::new();
@@ -45,7 +58,7 @@ pub fn run(case: &str) -> String {
     }
     let kind = f[0].to_string();
     let r = guarded(move || {
-        let script = Script { segs, i: 0, off: 0 };
+        let script = Script { segs, i: 0, off: 0, intr };
         let mut rd = if let Some(n) = kind.strip_prefix('F') {
             BodyReader::new_fixed(&leftover, script, n.parse().unwrap())
         } else if kind == "C" {
@@ -56,6 +69,16 @@ pub fn run(case: &str) -> String {
         let mut out: Vec<u8> = Vec::new();
         let mut status = "MORE";
         let mut buf = vec![0u8; 1 << 18];
+        // modes V and L: the callers that retry an interrupted read by themselves - BodyReader::vec (read_to_end) and read_until
+        if mode == "V" {
+            return match rd.vec() { Ok(v) => { std::mem::forget(rd); format!("{} EOF", hex(&v)) } Err(_) => { std::mem::forget(rd); "- ERR".to_string() } };
+        }
+        if mode == "L" {
+            let st = loop { match rd.read_until(b'\n', &mut out) { Ok(0) => break "EOF", Ok(_) => {}, Err(_) => break "ERR" } };
+            std::mem::forget(rd);
+            return format!("{} {}", hex(&out), st);
+        }
+        let fixed_kind = kind.starts_with('F');
         for (idx, &k) in sizes.iter().enumerate() {
             // mode M: both faces on one reader, read and fill_buf/consume taking turns
             if mode == "R" || (mode == "M" && idx % 2 == 0) {
@@ -63,13 +86,14 @@ pub fn run(case: &str) -> String {
                     Ok(0) if k == 0 => {}   // an empty buffer: nothing read, nothing learnt
                     Ok(0) => { status = "EOF"; break; }
                     Ok(n) => out.extend_from_slice(&buf[..n]),
-                    Err(_) => { status = "ERR"; break; }
+                    // a fixed-length body that was cut short: asked again, the reader must not report a normal end
+                    Err(_) => { status = if fixed_kind && matches!(rd.read(&mut buf[..16]), Ok(0)) { "ERREOF" } else { "ERR" }; break; }
                 }
             } else {
                 let n = match rd.fill_buf() {
                     Ok(a) if a.is_empty() => { status = "EOF"; break; }
                     Ok(a) => { let n = k.min(a.len()); out.extend_from_slice(&a[..n]); n }
-                    Err(_) => { status = "ERR"; break; }
+                    Err(_) => { status = if fixed_kind && matches!(rd.fill_buf(), Ok(a) if a.is_empty()) { "ERREOF" } else { "ERR" }; break; }
                 };
                 rd.consume(n);
             }
@@ -183,6 +207,22 @@ pub fn gen(ctx: &Ctx) {
         if rng.chance(1, 3) { e.extend(b"GET / HTTP/1.1\r\n\r\n"); }
         emit(&mut out, "C", &e, &mut rng, p.len(), "chunked-valid");
         if i % 10 == 0 { emit(&mut out, "E", &p, &mut rng, p.len(), "eof-delimited"); }
+    }
+    // a stream whose reads are interrupted (EINTR) now and then, under the callers that retry by themselves: BodyReader::vec
+    // (read_to_end) and read_until; the body is delivered whole all the same
+    for i in 0..(if ctx.thorough { 3000 } else { 300 }) {
+        let len = match rng.below(6) { 0 => 1, 1 => rng.range(4000, 9000) as usize, _ => rng.range(2, 300) as usize };
+        let p = payload(&mut rng, len);
+        let (kind, mut d) = if i % 2 == 0 { (format!("F{}", p.len()), p.clone()) } else { ("C".to_string(), encode_chunked(&mut rng, &p)) };
+        if rng.chance(1, 3) { d.extend(b"GET / HTTP/1.1\r\n\r\n"); }
+        let (lo, segs) = split_segs(&mut rng, &d);
+        if segs.is_empty() { continue; }
+        let marks: Vec<bool> = (0..segs.len()).map(|j| rng.chance(1, 3) || j == segs.len() / 2).collect();
+        let mode = if i % 4 < 2 { "V" } else { "L" };
+        let case = format!("{} {} {} {}", kind, hex(&lo), segs.iter().zip(&marks).map(|(s, m)| format!("{}{}", if *m { "!" } else { "" }, hex(s))).collect::<Vec<_>>().join(","), mode);
+        let r = run(&case);
+        let st = r.rsplit(' ').next().unwrap_or("?").to_string();
+        out.emit(&case, &r, &format!("interrupted/{}/{mode}/{st}", &kind[..1]), !r.starts_with("- "));
     }
     if ctx.thorough {
         for _ in 0..6 {
